@@ -63,10 +63,10 @@ Marked(ev, t) ==
                        IN <<m[1], "[" \o (IF t[3] = Open THEN "" ELSE ToString(t[3])) \o "]" \o m[2]>>
     [] t[1] \in {"fnp", "fn"} ->
          LET m == Marked(ev, t[2])
-             an == [i \in DOMAIN t[3] |-> Marked(ev, t[3][i])[1] \o Marked(ev, t[3][i])[2]]
+             an == [i \in DOMAIN t[3] |-> LET a == Marked(ev, t[3][i]) IN a[1] \o a[2]]
              al == IF t[4] THEN Append(an, "...") ELSE IF Len(an) = 0 THEN <<"void">> ELSE an
          IN <<m[1] \o (IF t[1] = "fnp" THEN "(*" ELSE "("), ")(" \o ArgsText(al) \o ")" \o m[2]>>
-PyStr(ev, t) == "<" \o Marked(ev, t)[1] \o Marked(ev, t)[2] \o ">"        \* str(tp) = repr
+PyStr(ev, t) == LET m == Marked(ev, t) IN "<" \o m[1] \o m[2] \o ">"        \* str(tp) = repr
 
 (* ------------------------------------------------------------------ Encode *)
 SUTag(t) == IF t = File THEN "_IO_FILE" ELSE t[2]          \* tp.name
